@@ -23,6 +23,15 @@ def cases(seed, tier):
     n = 250 if tier == 'quick' else 8000
     for i in range(n):
         t = T.rand_tree(rng, 'r', rng.choice([2, 4, 7]), names=['a', 'b', 'c', 'd', 'e'], md_p=0.5)
+        deep_first = i % 8 == 0
+        if deep_first:
+            # a root with metadata, a first-level node and a node below it (see the list saves further down)
+            if not t['mds']:
+                t['mds'] = [['m1', T.fresh_tok()], ['m2', T.fresh_tok()]]
+            if not t['kids']:
+                t['kids'].append({'cls': 'Node', 'name': 'a', 'tok': 0, 'rank': 0, 'mds': [], 'kids': []})
+            if not t['kids'][0]['kids']:
+                t['kids'][0]['kids'].append({'cls': 'Array', 'name': 'deep', 'tok': T.fresh_tok(), 'rank': 1, 'mds': [], 'kids': []})
         if rng.random() < 0.4:
             # rename some metadata after attachment
             for p in T.all_paths(t)[1:]:      # node metadata only (root metadata renamed after attachment: see DESIGN.md F31)
@@ -104,6 +113,13 @@ def cases(seed, tier):
                               'emdpath': rng.choice([None, 'q/zz/yy', 'nope'])})
                 if steps[-1]['emdpath'] is None:
                     del steps[-1]['emdpath']
+        if deep_first:
+            # a list naming a first-level node of the tree and then a node of the SAME tree further down: the later item is refused
+            # after the earlier one was written -- the caller's root keeps all it had
+            k0 = t['kids'][0]
+            inp = {'kind': 'list', 'items': [{'kind': 'top', 'top': 0, 'tp': [k0['name']]}, {'kind': 'top', 'top': 0, 'tp': [k0['name'], k0['kids'][0]['name']]}]}
+            steps.append({'op': 'save', 'file': fresh(), 'input': inp, 'mode': 'w', 'tree': True})
+            steps.append({'op': 'save', 'file': fresh(), 'top': 0, 'tp': [], 'mode': 'w', 'tree': True})
         sc = {'tops': tops, 'steps': steps}
         if rng.random() < 0.2 and t['mds']:
             # root metadata renamed after attachment as well, and the tree appended twice into one file (the second time every
